@@ -62,7 +62,6 @@ impl CallArgs {
     ) -> Result<(), String> {
         for (k, v) in map {
             match k {
-                Value::Null => self.positional.push(v),
                 Value::Literal(s) => {
                     self.named.insert(s.value().into(), v);
                 }
